@@ -14,11 +14,12 @@ func init() {
 	register(&Prop{
 		ID:        "C09",
 		Level:     "other",
-		Technique: "chain-shape rules in groupConsumer.commit (prior-done hand-over order, must-pass-through of the wait for the prior commit before the request is issued, deferred close), exactly-once counting of the completion callback through the commit entry points and their wrapper closures, lockset rule at commit's call sites, store rules in updateCommitted",
+		Technique: "chain-shape rules in groupConsumer.commit (prior-done hand-over order, must-pass-through of the wait for the prior commit before the request is issued, deferred close), exactly-once counting of the completion callback through the commit entry points and their wrapper closures, lockset rule at commit's call sites, store rules in updateCommitted, who-may-write / stored-value-provenance rules (load-test-store with branch facts) for the commit tracking map",
 		Explanation: "(1) commit chains through g.commitDone: the prior channel is read before the new one is stored, under g.mu at every call site; in the spawned goroutine the commit request (RequestWith) is issued only after the prior commit's done channel was received from whenever one exists - every path through the `priorDone != nil` arm passes a receive from priorDone and nothing else ends that wait; close(commitDone) is deferred first so it runs on every exit; the prior commit is never cancelled; " +
 			"(2) the completion callback is invoked exactly once on every path of the commit goroutine, and CommitOffsets / CommitOffsetsSync / commitOffsetsSync complete exactly once (callback, or hand-over to commit / commitOffsetsSync); each wrapper closure (unblockAuto, unblockJoinSync, unblockCommits) calls the wrapped callback exactly once, so the join/sync read lock, syncCommitMu and blockAuto are released exactly once; " +
-			"(3) updateCommitted(req, resp) precedes the successful callback; in it, for every partition answered without error, committed is stored unconditionally as {req LeaderEpoch, req Offset} (so CommittedOffsets equals the last successful commit, also for rewinds), head is only moved forward (head.Less(set)) and the entry is written back; responses from an older generation are ignored.",
-		NotDecided: "arrival order at the coordinator across connection failures and retries inside RequestWith.",
+			"(3) updateCommitted(req, resp) precedes the successful callback; in it, for every partition answered without error, committed is stored unconditionally as {req LeaderEpoch, req Offset} (so CommittedOffsets equals the last successful commit, also for rewinds), head is only moved forward (head.Less(set)) and the entry is written back; responses from an older generation are ignored; " +
+			"(4) the commit tracking map only grows outside revoke (c09_round4.go; updateCommitted skips partitions without an entry and CommittedOffsets reports exactly the entries, and fetchOffsets / polls / marks run in the middle of a cooperative or KIP-848 assignment): every store g.uncommitted[K] = M (type-resolved field groupConsumer.uncommitted) stores the local that was loaded from g.uncommitted[K] with the same key, under the branch fact that the loaded value was nil / absent, with no reassignment between load and test, and every other assignment of that local is a fresh map under that same fact; g.uncommitted = make(...) only under g.uncommitted == nil, g.uncommitted = nil only in revoke / abandonAssignment / manageFailWait / setupAssignedAndHeartbeat; delete / clear on the map or a per-topic map only in revoke.",
+		NotDecided: "arrival order at the coordinator across connection failures and retries inside RequestWith; in rule (4) the key expression is compared textually (not proven unchanged between lookup and store), per-partition entry overwrites (M[p] = uncommit{...}) are not restricted, and which partitions revoke deletes is not checked.",
 		Run:        runC09,
 	})
 	register(&Prop{
@@ -406,6 +407,7 @@ func runC09(c *Ctx) {
 		body := nows(printNode(m.Fset, cf.Decl.Body))
 		c.Check(strings.Contains(body, "getUncommittedLocked(false,false)"), "committed-equals-last-successful-commit", cf.Key, cf.Pos(), m, "reports the committed field", "CommittedOffsets does not report the committed offsets")
 	}
+	c09tracking(c, m) // c09_round4.go
 }
 
 func runC08(c *Ctx) {
